@@ -421,10 +421,35 @@ func (c14) Run(ctx *Ctx, ci interface{}) (o Outcome) {
 	// --- determinism under map orders -----------------------------------
 	var sets [4]*statSet
 	seeds := [4]uint64{c.MapSeeds[0], c.MapSeeds[0], c.MapSeeds[1], c.MapSeeds[2]}
+	// before the first and between the first and the second evaluation the same statistics are asked of another alignment with the same
+	// names and shape (every row rotated by one residue): an answer kept from an earlier call shows as a difference
+	var decoy align.Alignment
+	if L >= 2 {
+		d := align.NewAlign(al.Alphabet())
+		for i := range a.Names {
+			d.AddSequence(a.Names[i], a.Seqs[i][1:]+a.Seqs[i][:1], "")
+		}
+		if d.NbSequences() == n {
+			decoy = d
+		}
+	}
+	if decoy != nil {
+		// ... and before the first one: whatever a call keeps for the next one then comes from the decoy
+		verifrt.SetMapSeed(seeds[3], true)
+		if !guarded("evaluating the statistics of the decoy alignment", func() { c14Eval(c, decoy) }) {
+			return
+		}
+	}
 	for k := range sets {
 		verifrt.SetMapSeed(seeds[k], true)
 		if !guarded("evaluating the statistics", func() { sets[k] = c14Eval(c, al) }) {
 			return
+		}
+		if k == 0 && decoy != nil {
+			if !guarded("evaluating the statistics of the decoy alignment", func() { c14Eval(c, decoy) }) {
+				return
+			}
+			o.Add("decoy_alignment_between_two_evaluations", 1)
 		}
 	}
 	o.Add("map_iterations_controlled", int64(verifrt.MapCalls()))
